@@ -1215,7 +1215,8 @@ def merge(ck, d):
     for smp in d["samples"]:
         ck.sample(smp, limit=24)
     for nt in d["notes"]:
-        ck.note(nt)
+        if nt not in ck.notes:
+            ck.note(nt)
     for key, (cnt, what) in d["known"].items():
         ck.violation(key, what, None)
         ck.known_hits[key] = ck.known_hits.get(key, 0) + cnt - 1
@@ -1274,6 +1275,10 @@ def task(kind, init, jobinfo, params):
             ck.extra["predictor_cases_declared_unsupported_by_the_code"] = counters["declared_unsupported"]
         else:
             raise MachineryError("unknown task " + kind)
+    if so.DEGRADED:
+        ck.extra["degraded_observation_" + kind] = sorted(so.DEGRADED)
+        ck.note("loop observation unavailable for %s (its source no longer has the observed line): per-run events were "
+                "derived from the function's result" % ", ".join(sorted(so.DEGRADED)))
     out["log"] = ck.dump()
     out["wall_s"] = round(time.time() - t_start, 1)
     return out
